@@ -573,13 +573,15 @@ func AppendBinaryValue(data []byte, fieldType uint8, value interface{}) ([]byte,
 			}
 		case TypeDate:
 			// format: 2006-01-02
-			ts, err := time.Parse("2006-01-02", v)
-			if err != nil {
+			// MySQL also stores dates time.Parse refuses (a zero month or day, '2024-00-00'):
+			// they are encoded field by field, only text that is no date at all becomes the zero date
+			var year, month, day int
+			if n, _ := fmt.Sscanf(v, "%4d-%2d-%2d", &year, &month, &day); n != 3 || len(v) != 10 || (year == 0 && month == 0 && day == 0) {
 				t = append(t, 0)
 			} else {
 				t = append(t, 4)
-				t = AppendUint16(t, uint16(ts.Year()))
-				t = append(t, byte(int(ts.Month())), byte(ts.Day()))
+				t = AppendUint16(t, uint16(year))
+				t = append(t, byte(month), byte(day))
 			}
 		case TypeDuration:
 			timeValue, err := stringToMysqlTime(v)
